@@ -23,8 +23,8 @@ TEXT = {
         ref="4.3"),
     "C15": dict(
         technique="deterministic simulation: scorer-as-scheduler + lossy stack fault + prefilter buggify; refinement against an executable reference derivation model",
-        text="Every streamed candidate is checked against an independent reference derivation model (own matcher, own sequence enumeration, own window matcher, deep-copied arguments, closure to fixpoint): sound (derivable, and derivable along its reported production), complete (every terminal value streamed, for every scheduler), pure (argument snapshots around each rule application; yielded candidates re-validated after every later step). Depth limits are injected as a loss fault (soundness only).",
-        note="Trusted: the registered rules and patterns are the specification ('what the rules license'); the reference model applies the same production functions to copies. Texts whose closure exceeds the state cap are skipped and counted.",
+        text="Every streamed candidate is checked against an independent reference derivation model (own matcher, own sequence enumeration, own window matcher, deep-copied arguments, closure to fixpoint): sound (derivable, and derivable along its reported production), complete (every terminal value streamed, for every scheduler), pure (argument snapshots around each rule application; yielded candidates re-validated after every later step). Depth limits are injected as a loss fault (soundness only). Runs with latent-time anchoring on (the default configuration) are compared modulo a reference model of that post-processing step, and every value a rule has seen or produced is re-checked for in-place edits at each later rule application.",
+        note="Trusted: the registered rules and patterns are the specification ('what the rules license'); the reference model applies the same production functions to copies. Texts are short, pre-processing must be the identity on them (labels are allowed and removed by an own scanner); texts whose closure exceeds the state cap or whose search exceeds the step cap are skipped and counted.",
         ref="4.3"),
     "C12": dict(
         technique="deterministic simulation: seeded interleaving of call/stream/abandon/fail steps and baton-passing threads pre-empted at line events, against a stateless table filled by fresh interpreters under several hash seeds",
